@@ -362,12 +362,15 @@ def _params(op, rng, shape, A):
         p["region"] = region
         p["value"] = float(rng.choice([0.0, 5.0]))
     elif op in ("eq_scalar", "ne_scalar", "lt_scalar", "ge_scalar", "mul_scalar", "div_scalar"):
-        p["c"] = float(rng.choice([-1.0, 1.0, 2.0, 0.5, 0.0] if op not in ("div_scalar",) else [-1.0, 2.0, 0.5]))
+        # (division: also infinite divisors, for which every quotient is exactly zero)
+        p["c"] = float(rng.choice([-1.0, 1.0, 2.0, 0.5, 0.0] if op not in ("div_scalar",) else [-1.0, 2.0, 0.5, np.inf, -np.inf]))
     elif op in ("and_dense", "mul_dense", "eq_dense", "gt_dense", "div_dense", "innerprod_dense"):
         D = _array_with(rng, shape, int(rng.integers(0, int(np.prod(shape)) + 1)))
         D = np.where((A != 0) & (rng.random(shape) < 0.5), A, D)
         if op == "div_dense":
             D = np.where(D == 0, 4.0, D)
+            if rng.random() < 0.4:
+                D = np.where((A != 0) & (rng.random(shape) < 0.5), np.inf, D)      # some quotients are exactly zero
         p["D"] = D
     elif op in ("scale_sp", "scale_dense"):
         d = int(rng.integers(0, N))
